@@ -15,9 +15,11 @@ UNLISTED = "zz-unlisted"
 def attr_domain(spec):
     """abstraction {absent, each listed value, one unlisted value}"""
     vals = [v for v in spec[1:] if isinstance(v, str)]
+    # the empty string is a value like any other (present, not absent): it must never be
+    # read as "missing" and is unlisted unless the table lists it
     if vals:
-        return [None] + vals + [UNLISTED]
-    return [None, "v"]
+        return [None] + vals + [UNLISTED] + ([""] if "" not in vals else [])
+    return [None, "v", ""]
 
 
 def expected_violations(rattrs, attrs):
